@@ -273,7 +273,7 @@ def run_check(pid, tier, replay_file=None):
             if cur is None or len(v.get("trace") or []) < len(cur.get("trace") or []):
                 new[(v["property"], sig)] = v
     for (prop, sig), (k, v) in sorted(kf_hits.items()):
-        print("KNOWN-FINDING: property=%s %s" % (prop, k.get("what", sig)))
+        print("KNOWN-FINDING: property=%s [%s %s] %s" % (prop, k.get("id", ""), sig, k.get("what", sig)))
     rc = 0
     os.makedirs(os.path.join(VERIF, "replays"), exist_ok=True)
     for (prop, sig), v in sorted(new.items()):
